@@ -156,7 +156,9 @@ def run_tlc(
     out = p.stdout.decode("utf-8", errors="replace")
     res = TlcResult(out, p.returncode, time.time() - t0, cmd)
     if expect_ok and not res.completed:
-        tail = "\n".join(out.splitlines()[-40:])
+        lines = out.splitlines()
+        first = next((j for j, ln in enumerate(lines) if ln.startswith("Error:") or "Exception" in ln), None)
+        tail = ("\n".join(ln[:400] for ln in lines[first: first + 12]) + "\n...\n" if first is not None else "") + "\n".join(ln[:400] for ln in lines[-8:])
         raise MachineryError(f"TLC did not complete cleanly ({module} / {cfg}, rc={p.returncode}):\n{tail}")
     return res
 
